@@ -29,6 +29,7 @@ import EaselModel.Dist.DLogSumAll
 import EaselModel.Dist.Limits
 import EaselModel.Dist.SeriesConv
 import EaselModel.Dist.EdgeAtMu
+import EaselModel.Dist.EdgeLimits
 /-! # C10 — each distribution's pdf, cdf, survival, log and inverse functions agree
 
 Full statement (properties.jsonl): for every supported continuous distribution and all valid parameters and arguments
@@ -1102,6 +1103,20 @@ theorem support_edge_values (μ l τ : ℝ) :
       esl_sxp_logpdf μ μ l τ = log l + log τ - Num.logGamma (1 / τ) ∧
       esl_sxp_logpdf μ μ l τ = log (esl_sxp_pdf μ μ l τ) ∧ 0 < esl_sxp_pdf μ μ l τ) :=
   ⟨EdgeAtMu.gam_at_mu μ l τ, EdgeAtMu.wei_at_mu μ l τ, fun hl hτ => EdgeAtMu.sxp_at_mu hl hτ⟩
+
+/-- …and those edge values are the RIGHT-HAND LIMITS of the textbook density (Weibull, `λ > 0`): as `x ↓ μ` the density
+    `weiPdf μ λ τ` tends to `+∞` for `0 < τ < 1`, to `λ = esl_wei_pdf(μ)` for `τ = 1`, to `0 = esl_wei_pdf(μ)` for `τ > 1` — the
+    `x == mu` branch of the code continues the density from the right (for `τ < 1` it returns the infinity symbol where the
+    density is unbounded). -/
+theorem wei_edge_is_density_limit {μ l τ : ℝ} (hl : 0 < l) :
+    (0 < τ → τ < 1 → Filter.Tendsto (weiPdf μ l τ) (nhdsWithin μ (Set.Ioi μ)) Filter.atTop ∧ esl_wei_pdf μ μ l τ = Num.inf) ∧
+    (Filter.Tendsto (weiPdf μ l 1) (nhdsWithin μ (Set.Ioi μ)) (nhds (esl_wei_pdf μ μ l 1)) ∧ esl_wei_pdf μ μ l 1 = l) ∧
+    (1 < τ → Filter.Tendsto (weiPdf μ l τ) (nhdsWithin μ (Set.Ioi μ)) (nhds (esl_wei_pdf μ μ l τ)) ∧ esl_wei_pdf μ μ l τ = 0) := by
+  refine ⟨fun h0 h1 => ⟨EdgeLimits.weiPdf_edge_top hl h0 h1, ((EdgeAtMu.wei_at_mu μ l τ).1 h1).1⟩, ?_, fun h1 => ?_⟩
+  · have e := ((EdgeAtMu.wei_at_mu μ l 1).2.2 rfl).1
+    exact ⟨by rw [e]; exact EdgeLimits.weiPdf_edge_one hl, e⟩
+  · have e := ((EdgeAtMu.wei_at_mu μ l τ).2.1 h1).1
+    exact ⟨by rw [e]; exact EdgeLimits.weiPdf_edge_zero hl h1, e⟩
 
 /-- every carrier (so also binary64): what the `x == mu` branch of the translated densities returns, under exactly the tests
     the C code makes (`y < 0` resp. `x < mu` false, `x == mu` true, then `tau < 1`, `tau > 1`, `tau == 1` in that order) -/
